@@ -115,6 +115,11 @@ def check_fit(ctx, c):
     sill_mode = str(rng.choice(["none", "none", "given", "false"]))
     if sill_mode != "none":
         state["len_scale"] = "fit"  # with a fixed sill var/nugget may both drop out of the estimation: keep something to fit
+    if sill_mode == "given" and name not in common.TPL and rng.random() < 0.3:
+        # the smallest constrained problem: only the partition of the sill into variance and nugget is estimated
+        for p in paras:
+            state[p] = "fixed"
+        state["var"], state["nugget"] = "fit", "fit"
     anis_mode = str(rng.choice(["fit", "fixed", "false"])) if directional else "na"
     # ---- the model to be fitted: start within +-10 % -------------------------------------------------
     start = copy.deepcopy(truth)
